@@ -1086,7 +1086,7 @@ def s_sweep(ctx):
     ctx.given("C15.sweep", G.sweep_case(), n={"quick": 450, "thorough": 15000})
 
 
-@subcheck("C15", "primitive", shards={"quick": 2, "thorough": 8})
+@subcheck("C15", "primitive", shards={"quick": 4, "thorough": 8})
 def s_primitive(ctx):
     ctx.given("C15.primitive", G.primitive_case(), n={"quick": 700, "thorough": 20000})
 
